@@ -11,7 +11,7 @@ code -> spec  random forecasts (rates 1e-9..10, zeros): observed value and every
 import random
 from fractions import Fraction
 
-from vh.core import MachineryError, guarded, guarded_timeout, Raised
+from vh.core import MachineryError, guarded, guarded_timeout, Raised, same_evaluation
 from vh import xr
 
 RATE_TABLES = [{1: 0.5, 2: 2.0}, {1: 1e-9, 2: 10.0}, {1: 0.1, 2: 0.7}, {1: 3.3e-7, 2: 5.25}, {1: 9.5, 2: 0.02}]
@@ -88,6 +88,18 @@ def run(chk, replay=None):
             chk.count()
             if isinstance(res, Raised) or not xr.close(res.observed_statistic, exp, atol=1e-11 + extra):
                 bad.append(('public test', repr(res if isinstance(res, Raised) else float(res.observed_statistic)), str(exp)))
+            elif lay != 'F' and sum(1 for r in wm for x in r if x > 0) <= int((data > 0).sum()) and \
+                    sum(1 for r in wm if sum(r) > 0) <= int((data.sum(axis=1) > 0).sum()):
+                # the same call again on the same objects, after the other two tests ran on them
+                before = numpy.array(fc.data, dtype=float).tobytes()
+                for other in ('BLL', 'BLLS', 'BRIER'):
+                    if other != kind:
+                        call(other, fc, cat, 2, 3)
+                again = call(kind, fc, cat, 2, 3)
+                chk.count(3)
+                if not same_evaluation(res, again) or numpy.array(fc.data, dtype=float).tobytes() != before:
+                    bad.append(('public test re-evaluated on the same objects', repr(again if isinstance(again, Raised) else float(again.observed_statistic)),
+                                repr(float(res.observed_statistic))))
         return bad
 
     res = chk.tlc('BinaryBrier', 'MC_BinaryBrier.cfg', timeout=900)
